@@ -111,7 +111,7 @@ structure ScanV where
 inductive Slot
   | none
   | handle (h : Nat)
-  | list (l : ResultList Entry) (ordered : Bool)
+  | list (l : ResultList Entry) (ordered : Bool) (known : Bool)
   | strs (l : List String)
   | key (alg : String)
   deriving Inhabited
@@ -183,8 +183,11 @@ def filterArg (j : Json) : Except Err (Option (Query String)) :=
     | some f => .ok (some (parseFilter f))
     | none => .error .input
 
-def jlist (l : ResultList Entry) (ordered : Bool) : Json :=
+/-- `ordered`: the order of the rows is determined; `known`: the set of rows is determined
+    (without ORDER BY a limited result and the pages of a scan are not) -/
+def jlist (l : ResultList Entry) (ordered known : Bool) : Json :=
   let rows := l.toList
+  if !ordered && !known then Json.mkObj [("count", jint l.len.toInt), ("n", jnat rows.length)] else
   let rows := if ordered || rows.length ≤ 1 then rows else sortBy entryLt rows
   Json.mkObj [("count", jint l.len.toInt), ("rows", .arr (rows.map jentry).toArray)]
 
@@ -318,7 +321,7 @@ def evalOp (w : World) (i : Nat) (j : Json) : World × Json :=
           | none => (setSlot w i .none, .ok (Json.mkObj [("list", .null)]))
           | some e =>
             let l := ResultList.single e
-            (setSlot w i (.list l true), .ok (Json.mkObj [("list", jlist l true)]))) w
+            (setSlot w i (.list l true true), .ok (Json.mkObj [("list", jlist l true true)]))) w
   | "fetch_all" =>
     let sh := handleArg w w.sessions.counter j
     let ob := decodeOrderBy (cstr j "order_by")
@@ -334,7 +337,8 @@ def evalOp (w : World) (i : Nat) (j : Json) : World × Json :=
           | .error e => (w, .error e)
           | .ok es =>
             let l := ResultList.rows es
-            (setSlot w i (.list l ordered), .ok (Json.mkObj [("list", jlist l ordered)]))) w
+            let known := ordered || (decodeLimit (int! j "lim")).isNone
+            (setSlot w i (.list l ordered known), .ok (Json.mkObj [("list", jlist l ordered known)]))) w
   | "count" =>
     let sh := handleArg w w.sessions.counter j
     let fa := filterArg j
@@ -392,14 +396,14 @@ def evalOp (w : World) (i : Nat) (j : Json) : World × Json :=
         | p :: rest =>
           let l := ResultList.rows p
           let w := { w with scans := w.scans.replace kh store { sv with pages := rest } }
-          (setSlot w i (.list l sv.ordered), .ok (Json.mkObj [("list", jlist l sv.ordered)]))
+          (setSlot w i (.list l sv.ordered sv.ordered), .ok (Json.mkObj [("list", jlist l sv.ordered sv.ordered)]))
   | "scan_free" =>
     let kh := handleArg w w.scans.counter j
     ({ w with scans := (w.scans.remove kh).2 }, jres .success .null)
   | "list_count" =>
     let nullOut := bool! j "null_out"
     match slotArg w j with
-    | .list l _ =>
+    | .list l _ _ =>
       match checkOutAndHandle nullOut false with
       | .error e => (w, jsync (Code.ofErr e) .null)
       | .ok _ => (w, jsync .success (jint l.len.toInt))
@@ -410,14 +414,14 @@ def evalOp (w : World) (i : Nat) (j : Json) : World × Json :=
   | "list_get" =>
     let nullOut := bool! j "null_out"
     match slotArg w j with
-    | .list l ordered =>
+    | .list l ordered known =>
       match checkOutAndHandle nullOut false with
       | .error e => (w, jsync (Code.ofErr e) .null)
       | .ok _ =>
         match l.getRow (Int32.ofInt (int! j "idx")) with
         | .error e => (w, jsync (Code.ofErr e) .null)
         | .ok e =>
-          if !ordered && l.toList.length > 1 then (w, jsync .success "unordered") else
+          if !(ordered || (known && l.toList.length ≤ 1)) then (w, jsync .success "unordered") else
           let v : Json := match str! j "field" with
             | "category" => .str e.cat
             | "name" => .str e.name
